@@ -190,6 +190,9 @@ mod serialize;
 
 pub mod app;
 
+#[cfg(feature = "verif_hooks")]
+pub mod verif_hooks;
+
 pub(crate) use util::polysmallmod as polymod;
 // pub(crate) use util::{BlakeRNGFactory, BlakeRNG};
 
